@@ -28,8 +28,9 @@ crate::verif_harness! {
 
 /// new-format palette chunk: Ok iff header fits, last >= first and last-first+1 entries can be read;
 /// then exactly the indices first..=last are present with the stored RGBA and optional name.
-fn check_palette_chunk(data: &[u8], max_entries: u32) {
+fn check_palette_chunk(data: &[u8], max_entries: u32) -> bool {
     let got = parse_chunk(data);
+    let decoded_ok = got.is_ok();
     let mut want = false;
     let mut offs = [0usize; 4];
     let mut first = 0u32;
@@ -88,30 +89,33 @@ fn check_palette_chunk(data: &[u8], max_entries: u32) {
         (Ok(_), false) => assert!(false, "decoder accepted a palette chunk the format rejects"),
         (Err(_), true) => assert!(false, "decoder rejected a well-formed palette chunk"),
     }
+    decoded_ok
 }
 
 macro_rules! palette_shape {
-    ($hname:ident, $n:expr) => {
+    ($hname:ident, $n:expr, $u:expr, $can_ok:expr) => {
         crate::verif_harness! {
             /// palette::parse_chunk on every payload of exactly $n bytes (first/last index, flags, names symbolic).
             /// No arithmetic overflow for any first/last (incl. 0..=u32::MAX).
             #[kani::stub(std::fmt::format, crate::verif_spec::stubs::format_stub)]
-            #[kani::unwind(8)]
+            #[kani::unwind($u)]
             fn $hname(s) {
                 let d: [u8; $n] = s.bytes();
-                check_palette_chunk(&d, 4);
-                crate::vcover!(parse_chunk(&d).map_or(false, |p| p.num_colors() >= 1), "an entry decodes");
+                let ok = check_palette_chunk(&d, 4);
+                crate::vcover!(ok || !$can_ok, "a well-formed payload of this size decodes");
+                crate::vcover!(!ok, "a malformed payload of this size is rejected");
             }
         }
     };
 }
-palette_shape!(k_palette_chunk_20, 20); // header only: any non-empty range runs out of data
-palette_shape!(k_palette_chunk_26, 26); // one unnamed entry
-palette_shape!(k_palette_chunk_35, 35); // two unnamed, or one named (<= 7-byte name)
+palette_shape!(k_palette_chunk_20, 20, 6, false); // header only: any non-empty range runs out of data
+palette_shape!(k_palette_chunk_26, 26, 6, true); // one unnamed entry
+palette_shape!(k_palette_chunk_35, 35, 9, true); // two unnamed, or one named (<= 7-byte name)
 
 /// legacy chunks 0x0004 / 0x0011: opaque entries at the cumulative packet offsets (sum of the skip bytes).
-fn check_old_chunk(data: &[u8], six_bit: bool) {
+fn check_old_chunk(data: &[u8], six_bit: bool) -> bool {
     let got = if six_bit { parse_old_chunk_11(data) } else { parse_old_chunk_04(data) };
+    let decoded_ok = got.is_ok();
     // spec walk over <= 2 packets x <= 3 colours (bounded by the payload size of the harness)
     let mut ok = fmt::le_u16(data, 0).is_some();
     let mut expect: [(u32, [u8; 4]); 6] = [(0, [0; 4]); 6];
@@ -186,25 +190,28 @@ fn check_old_chunk(data: &[u8], six_bit: bool) {
         (Ok(_), false) => assert!(false, "legacy palette decoder accepted a chunk the format rejects"),
         (Err(_), true) => assert!(false, "legacy palette decoder rejected a well-formed chunk"),
     }
+    decoded_ok
 }
 
 macro_rules! old_palette_shape {
-    ($hname:ident, $n:expr, $six:expr) => {
+    ($hname:ident, $n:expr, $six:expr, $u:expr, $can_ok:expr) => {
         crate::verif_harness! {
             /// legacy palette decoder on every payload of exactly $n bytes.
             #[kani::stub(std::fmt::format, crate::verif_spec::stubs::format_stub)]
-            #[kani::unwind(260)]
+            #[kani::unwind($u)]
             fn $hname(s) {
                 let d: [u8; $n] = s.bytes();
-                check_old_chunk(&d, $six);
+                let ok = check_old_chunk(&d, $six);
+                crate::vcover!(ok || !$can_ok, "a well-formed payload of this size decodes");
+                crate::vcover!(!ok, "a malformed payload of this size is rejected");
             }
         }
     };
 }
-old_palette_shape!(k_old04_chunk_10, 10, false); // one packet of two colours, or two packets ...
-old_palette_shape!(k_old11_chunk_10, 10, true);
-old_palette_shape!(k_old04_chunk_2, 2, false);
-old_palette_shape!(k_old11_chunk_13, 13, true);
+old_palette_shape!(k_old04_chunk_10, 10, false, 6, true); // one packet of two colours, or two packets ...
+old_palette_shape!(k_old11_chunk_10, 10, true, 6, true);
+old_palette_shape!(k_old04_chunk_2, 2, false, 3, true);
+old_palette_shape!(k_old11_chunk_13, 13, true, 7, true);
 
 crate::verif_harness! {
     /// validate_indexed_pixels(px) is Ok iff every pixel index is a palette entry (3 pixels, palette of
